@@ -1,11 +1,16 @@
 use std::sync::Arc;
 
+#[cfg(not(feature = "verif"))]
 use parking_lot::RwLock;
+#[cfg(feature = "verif")]
+use rawdb::verif::RwLock;
 use rawdb::Region;
 
 mod inner;
 
 use inner::HeaderInner;
+#[cfg(feature = "verif")]
+pub use inner::{verif_header_from_bytes, verif_header_to_bytes};
 
 use crate::{Result, Stamp, Version};
 
@@ -60,6 +65,12 @@ impl Header {
     #[inline(always)]
     pub fn modified(&self) -> bool {
         self.modified
+    }
+
+    #[cfg(feature = "verif")]
+    pub(crate) fn verif_register(&self, owner: usize) {
+        use rawdb::verif::{LockClass, lock_addr, register_lock};
+        register_lock(lock_addr(&self.inner), LockClass::Header, owner);
     }
 
     #[inline(always)]
